@@ -47,7 +47,7 @@ def render(rng, wl, fmt):
 
 MUTATIONS = ['byteflip', 'nonascii', 'control', 'del_line', 'dup_line', 'swap_lines', 'no_first_gt', 'data_before_header', 'punct_before_header',
              'empty_record', 'header_only', 'single_record', 'huge_name', 'foreign_letters', 'digits', 'many_identical', 'zero_len', 'mixed_formats',
-             'truncate', 'empty_file', 'newlines_only', 'gt_only', 'long_line', 'extra_block_row', 'missing_block_row', 'nul_bytes', 'only_gaps', 'crlf', 'tabs']
+             'truncate', 'msf_name_at_eol', 'empty_file', 'newlines_only', 'gt_only', 'long_line', 'extra_block_row', 'missing_block_row', 'nul_bytes', 'only_gaps', 'crlf', 'tabs']
 
 
 def mutate_input(rng, data, wl, fmt, which):
@@ -170,6 +170,19 @@ def mutate_input(rng, data, wl, fmt, which):
         return data.replace(b'\n', b'\r\n')
     if which == 'tabs':
         return data.replace(b' ', b'\t')
+    if which == 'msf_name_at_eol':
+        # an MSF header line that ends right after the name (fields in another order)
+        out = []
+        for l in lines:
+            if b'Name:' in l and b'Len:' in l:
+                parts = l.split()
+                try:
+                    nm = parts[parts.index(b'Name:') + 1]
+                    l = b' Len: 5  Check: 1  Weight: 1.00  Name: ' + nm
+                except (ValueError, IndexError):
+                    pass
+            out.append(l)
+        return b'\n'.join(out)
     if which == 'name_with_blanks':
         # only meaningful for FASTA output (in msf/clu the name ends at the first blank by definition)
         return data.replace(b'>', b'> a name with\tblanks ', 1) if fmt == 'fasta' else data
